@@ -499,6 +499,14 @@ def subset_connectivity(N, E, extra, model, empty=False):
 
 # ------------------------------------------------------------- bounded stand-ins: exhaustive native table checks --
 
+def _jsonable(o):
+    if isinstance(o, numpy.integer):
+        return int(o)
+    if isinstance(o, numpy.ndarray):
+        return o.tolist()
+    return repr(o)
+
+
 def _ref_family():
     from nutils import element
     line, tri, tet = element.LineReference(), element.TriangleReference(), element.TetrahedronReference()
@@ -550,7 +558,7 @@ def reference_tables():
             nlisted = len(listed.get((i, e), []))
             if (want == -1 and nlisted != 1) or (want != -1 and nlisted != 0):
                 failures.append(dict(clause='every-child-face-exactly-once', ref=name, child=i, edge=e, interior_partner=want, times_listed_in_edgechildren=nlisted))
-    print('BOUNDED-RESULT ' + json.dumps(dict(cases=cases, failures=failures[:10])))
+    print('BOUNDED-RESULT ' + json.dumps(dict(cases=cases, failures=failures[:10]), default=_jsonable))
 
 
 def _base_family(two_per_period=False):
@@ -649,7 +657,7 @@ def refined_connectivity(two_per_period=False):
                 cases += _adjacency_failures('%s refined %dx' % (name, depth), r, geom, [p for p in periods], '', failures)
             except Exception as e:
                 failures.append(dict(clause='connectivity-is-the-face-adjacency', topo=name, raised='%s: %s' % (type(e).__name__, e)))
-    print('BOUNDED-RESULT ' + json.dumps(dict(cases=cases, failures=failures[:10])))
+    print('BOUNDED-RESULT ' + json.dumps(dict(cases=cases, failures=failures[:10]), default=_jsonable))
 
 
 def subset_boundary_interfaces(two_per_period=False):
@@ -687,4 +695,4 @@ def subset_boundary_interfaces(two_per_period=False):
                     failures.append(dict(clause='interfaces-list-every-interior-face-once', topo=tag, got=ifc, expected=shared))
             except Exception as e:
                 failures.append(dict(clause='connectivity-is-the-face-adjacency', topo=tag, raised='%s: %s' % (type(e).__name__, e)))
-    print('BOUNDED-RESULT ' + json.dumps(dict(cases=cases, failures=failures[:10])))
+    print('BOUNDED-RESULT ' + json.dumps(dict(cases=cases, failures=failures[:10]), default=_jsonable))
